@@ -674,6 +674,58 @@ def d6(ctx, prog):
     return n
 
 
+DTYPES = {'uint8': ('u', 0, 255), 'int8': ('i', -128, 127), 'int16': ('i', -2 ** 15, 2 ** 15 - 1), 'uint16': ('u', 0, 2 ** 16 - 1), 'int32': ('i', -2 ** 31, 2 ** 31 - 1),
+          'uint32': ('u', 0, 2 ** 32 - 1), 'int64': ('i', -2 ** 63, 2 ** 63 - 1), 'uint64': ('u', 0, 2 ** 64 - 1), 'float64': ('f', None, None), 'float32': ('f', None, None)}
+
+
+def byte_validator(ctx, prog, rule):
+    """the shared argument check accepts exactly the arrays of byte values: `_is_bytes_array` is interpreted (sa.confinterp) for
+    every integer dtype and every (minimum, maximum) pair on the boundaries -1, 0, 1, 127, 128, 254, 255, 256, 1000 that the
+    dtype can hold; it must return for 0 <= min <= max <= 255 and raise otherwise; float arrays are refused."""
+    from .. import confinterp as ci
+    f = prog.need_func('scared._utils', '_is_bytes_array')
+    key = f'{f.key}::accepts exactly byte values'
+    pts = (-1, 0, 1, 127, 128, 254, 255, 256, 1000)
+    bad = []
+    n = 0
+    try:
+        for dt, (kind, lo, hi) in DTYPES.items():
+            pairs = [(None, None)] if kind == 'f' else [(a, b) for a in pts for b in pts if a <= b and lo <= a and b <= hi]
+            for mn, mx in pairs:
+                it = ci.Interp(prog)
+                dts = ci.Sym('numpy.' + dt, attrs={'kind': kind, 'name': dt, 'itemsize': 8})
+                arr = ci.Sym('array', attrs={'dtype': dts, '__isa__': {'numpy.ndarray'}, 'ndim': 2, 'shape': (2, 16), 'size': 32})
+
+                def stub_min(args, kwargs, mn=mn):
+                    return mn if mn is not None else ci.Sym('min')
+
+                def stub_max(args, kwargs, mx=mx):
+                    return mx if mx is not None else ci.Sym('max')
+
+                def stub_iinfo(args, kwargs):
+                    nm = args[0].name.split('.')[-1] if args and isinstance(args[0], ci.Sym) else (args[0] if args else None)
+                    if nm in DTYPES and DTYPES[nm][0] != 'f':
+                        return ci.Sym(f'iinfo({nm})', attrs={'min': DTYPES[nm][1], 'max': DTYPES[nm][2]})
+                    raise ci.Unknown('iinfo argument')
+                it.ext_stubs = {'numpy.min': stub_min, 'numpy.amin': stub_min, 'numpy.nanmin': stub_min, 'array.min': stub_min, 'numpy.max': stub_max, 'numpy.amax': stub_max,
+                                'numpy.nanmax': stub_max, 'array.max': stub_max, 'numpy.iinfo': stub_iinfo}
+                n += 1
+                try:
+                    it.call(f, (arr,), {})
+                    accepted = True
+                except ci.Raised:
+                    accepted = False
+                want = kind != 'f' and mn >= 0 and mx <= 255
+                if accepted != want:
+                    bad.append(f'a {dt} array with values in [{mn}, {mx}] is {"accepted" if accepted else "refused"}' if kind != 'f' else f'a {dt} array is accepted')
+    except ci.Unknown as e:
+        ctx.undecided(rule, key, f'validator not evaluable: {e}', f.where())
+        return 0
+    ctx.check(not bad, rule, key, f'{bad[0] if bad else ""}: the ciphers accept every integer array holding byte values 0..255 and nothing else ({len(bad)} of {n} dtype x range cases differ)',
+              f'{n} dtype x (min, max) cases: accepted exactly when 0 <= min and max <= 255', f.where(), cases=n)
+    return n
+
+
 def buffer_dtypes(ctx, prog, modname, rule):
     """every array allocated in a cipher module has a dtype fixed by the module (an explicit unsigned/integer literal dtype),
     never one inherited from the caller's array: table outputs (0..255) stored into an int8 buffer wrap"""
@@ -723,6 +775,8 @@ def run(ctx, prog):
     d4(ctx, prog)
     n5 = ownership(ctx, prog, A, 'C05-D5')
     n6 = d6(ctx, prog)
+    ctx.rule('C05-D7', 'the shared byte-array check accepts exactly integer arrays with all values in 0..255 (every dtype x boundary range, by interpretation)')
+    ctx.floor('byte validator cases', byte_validator(ctx, prog, 'C05-D7'), 100)
     ctx.floor('buffer allocations judged (aes)', buffer_dtypes(ctx, prog, A, 'C05-D2'), 2)
     ctx.floor('stop points composed (aes)', n6, 2 * 3 * 12 * 5)
     ctx.floor('table entries compared', n1, 256 * 8 + 32 + 10)
